@@ -181,7 +181,7 @@ class Interp:
         def nat(k):
             return '0' if k == 0 else '(' + ' + '.join(['1'] * k) + ')' if k > 1 else '1'
         t = nat(fr.numerator) if d == 1 else f'({nat(fr.numerator)} / {nat(d)})'
-        return f'(- {t})' if neg else t
+        return f'(- ({t}))' if neg else t
 
     def scalar(self, v):
         if isinstance(v, Field):          # a DiscreteField IS its value array; JaxDiscreteField delegates arithmetic to .value
@@ -626,7 +626,9 @@ class Interp:
             return None, e.what, None
         except ModelValueError as e:
             raise TranslateError(f'{func} under scenario {defname}: uncaught ValueError of einsum {e}')
-        if res is None or not isinstance(res, (Sym, int, float)) or isinstance(res, bool):
+        if res is None:
+            return None, 'returns None', None
+        if not isinstance(res, (Sym, int, float)) or isinstance(res, bool):
             raise TranslateError(f'{func} under scenario {defname}: result {res!r} is not a tensor')
         res = self.scalar(res)
         body = self.to_coq(res)
@@ -697,6 +699,7 @@ JX_SCEN = [
     ('jx_grad_v', 'grad', 'n', [VECTOR]),
     ('jx_div_hdiv', 'div', 'n', [HDIV]),
     ('jx_div_v', 'div', 'n', [VECTOR]),
+    ('jx_div_1d', 'div', 'n', [SCALAR]),
     ('jx_sym_grad', 'sym_grad', 'n', [VECTOR]),
     ('jx_dd', 'dd', 'n', [SCALAR_H]),
     ('jx_dot', 'dot', 'n', [A1, A1]),
@@ -725,6 +728,7 @@ JX_SCEN = [
 ]
 # helpers present in both files: (numpy definition, jax definition); the statement is pointwise equality
 AGREE = [('np_grad_s', 'jx_grad_s'), ('np_grad_v', 'jx_grad_v'), ('np_div_hdiv', 'jx_div_hdiv'), ('np_div_v', 'jx_div_v'),
+         ('np_div_1d', 'jx_div_1d'),
          ('np_sym_grad', 'jx_sym_grad'), ('np_dd', 'jx_dd'), ('np_dot', 'jx_dot'), ('np_ddot', 'jx_ddot'),
          ('np_dddot', 'jx_dddot'), ('np_prod2', 'jx_prod2'), ('np_prod3', 'jx_prod3'), ('np_mul', 'jx_mul'),
          ('np_trace', 'jx_trace'), ('np_transpose', 'jx_transpose'), ('np_eye', 'jx_eye'),
